@@ -194,6 +194,9 @@ func soak(d *daemonWorld, spec soakSpec) soakResult {
 		"GET services\nColumns: description comments downtimes\nFilter: comments >= 1\nOutputFormat: json\n\n",
 		"GET services\nStats: comments >= 1\nStats: downtimes >= 1\nOutputFormat: json\n\n",
 		"GET hosts\nColumns: name comments downtimes\nFilter: comments != \nOutputFormat: json\n\n",
+		// wait requests for objects that do not exist: whatever they take (locks) has to be given back
+		"GET hosts\nColumns: name state\nWaitTrigger: all\nWaitObject: no-such-host\nWaitCondition: state >= 0\nWaitTimeout: 20\nOutputFormat: json\n\n",
+		"GET services\nColumns: description state\nWaitTrigger: check\nWaitObject: no-such-host;nothing\nWaitCondition: state >= 0\nWaitTimeout: 20\nOutputFormat: json\n\n",
 	}
 	for c := 0; c < spec.Clients; c++ {
 		wg.Add(1)
